@@ -278,12 +278,12 @@ impl Circuit {
         let mut lines = lines_str.into_iter();
 
         // Parse wire and gate counts
-        let (wires_num, _gates_num) = {
+        let (wires_num, _gates_num, header_str) = {
             let (parts, line_str) = parse_line(lines.next())?;
             if parts.len() != 2 {
                 return Err(FromBristolError::MalformedLine(line_str));
             }
-            (parts[1], parts[0])
+            (parts[1], parts[0], line_str)
         };
 
         // Parse input line
@@ -301,7 +301,9 @@ impl Circuit {
                     expected_parties,
                 ));
             }
-            let input_wires: usize = input_gates.iter().sum();
+            let Some(input_wires) = checked_sum(&input_gates) else {
+                return Err(FromBristolError::MalformedLine(line_str));
+            };
             (input_gates, input_wires)
         };
 
@@ -319,12 +321,32 @@ impl Circuit {
                     num_outputs,
                 ));
             }
-            let num_output_wires = gates_per_output.iter().sum::<usize>();
-            (vec![0; num_output_wires], num_output_wires)
+            let Some(num_output_wires) = checked_sum(&gates_per_output) else {
+                return Err(FromBristolError::MalformedLine(line_str));
+            };
+            // The inputs are the first and the outputs the last wires of the circuit, so there
+            // cannot be more of either than there are wires. Every wire is either an input or
+            // assigned by one of the remaining lines, so the header cannot declare more wires than
+            // that (the counts come from the file and are used as allocation sizes and in index
+            // arithmetic below).
+            if num_output_wires > wires_num
+                || input_wires_num > wires_num
+                || input_wires_num
+                    .checked_add(lines.len())
+                    .is_some_and(|max_wires| wires_num > max_wires)
+            {
+                return Err(FromBristolError::MalformedLine(header_str));
+            }
+            let Some(output_gates) = zeroed_vec(num_output_wires) else {
+                return Err(FromBristolError::MalformedLine(header_str));
+            };
+            (output_gates, num_output_wires)
         };
 
         // Create the wires map to map the wires in the Bristol format to the wires in the Garble format.
-        let mut wires_map = vec![0; wires_num];
+        let Some(mut wires_map) = zeroed_vec(wires_num) else {
+            return Err(FromBristolError::MalformedLine(header_str));
+        };
         for (i, wire) in wires_map.iter_mut().take(input_wires_num).enumerate() {
             *wire = i;
         }
@@ -342,7 +364,7 @@ impl Circuit {
             }
             let num_inputs: usize = parts[0].parse()?;
             let num_outputs: usize = parts[1].parse()?;
-            if num_outputs != 1 || parts.len() != num_inputs + 4 {
+            if num_outputs != 1 || num_inputs.checked_add(4) != Some(parts.len()) {
                 return Err(FromBristolError::MalformedLine(line_str));
             }
             let input_wires: Vec<usize> = parts[2..(2 + num_inputs)]
@@ -399,6 +421,20 @@ impl Circuit {
             output_gates,
         })
     }
+}
+
+/// Sums up the counts read from a file, returns `None` if the sum overflows.
+fn checked_sum(counts: &[usize]) -> Option<usize> {
+    counts.iter().try_fold(0usize, |sum, &n| sum.checked_add(n))
+}
+
+/// Allocates a zeroed vector whose length was read from a file, returns `None` (instead of
+/// panicking or aborting) if that much memory cannot be allocated.
+fn zeroed_vec(len: usize) -> Option<Vec<usize>> {
+    let mut v = Vec::new();
+    v.try_reserve_exact(len).ok()?;
+    v.resize(len, 0);
+    Some(v)
 }
 
 /// Parses a line from the Bristol format file and returns a vector of usize.
